@@ -521,6 +521,24 @@ func (m *ftcpMux) GetConnByUfrag(ufrag string, _ bool, local net.IP) (net.Packet
 	return m.newHandle(ufrag, a, local, m.port), nil
 }
 
+// fmultiTCPMux is a TCP mux with several listeners: it hands out one connection per listener at once (ice.AllConnsGetter).
+type fmultiTCPMux struct {
+	ftcpMux
+	ports []int
+}
+
+func (m *fmultiTCPMux) GetAllConns(ufrag string, _ bool, local net.IP) ([]net.PacketConn, error) {
+	if err := m.w.gate("getallconns"); err != nil {
+		return nil, err
+	}
+	var out []net.PacketConn
+	for _, p := range m.ports {
+		out = append(out, m.newHandle(ufrag, &net.TCPAddr{IP: local, Port: p}, local, p))
+	}
+
+	return out, nil
+}
+
 // xorCall is one GetXORMappedAddr call waiting for the scripted STUN server.
 type xorCall struct {
 	server net.Addr
